@@ -4,6 +4,9 @@ from fractions import Fraction
 from .core import SV, I, Q, F, box, raw, r_div
 
 
+FP_MODE = [False]
+
+
 def div(a, b):
     """`a / b`.  Identical to Python's operator except that two *concrete Python numbers* are
     divided exactly (R-ideal regime: no rounding), so that e.g. 1/3 is the rational 1/3."""
@@ -11,6 +14,11 @@ def div(a, b):
     if ta in (int, float, bool) and tb in (int, float, bool):
         if b == 0:
             raise ZeroDivisionError("division by zero")
+        if FP_MODE[0]:
+            # F-bits kernels: concrete numbers are IEEE doubles; z3 folds the constant division with RNE exactly
+            from . import fp
+
+            return fp.const(float(a)) / fp.const(float(b))
         return box(r_div(raw(a), raw(b)))
     if ta is I and tb in (int, I):
         return box(r_div(int(a), int(b)))
